@@ -391,3 +391,16 @@ Proof. intros O t. apply to_mm_keeps_mm. apply to_mm_units. Qed.
 (* the generated unit constants *)
 Lemma mm_per_inch : MillimetresPerInch_q == 254 # 10 /\ InchesPerMillimetre_q * MillimetresPerInch_q == 1.
 Proof. split; vm_compute; reflexivity. Qed.
+
+(* the database has rows of all three families *)
+Lemma rows_example :
+  exists a b c, In a thread_rows /\ row_fn a = ISOAdd_row /\ In b thread_rows /\ row_fn b = UTSAdd_row /\
+                In c thread_rows /\ row_fn c = NPTAdd_row.
+Proof.
+  destruct (find (is_fn ISOAdd_row) thread_rows) as [a |] eqn:Ea; [| vm_compute in Ea; discriminate].
+  destruct (find (is_fn UTSAdd_row) thread_rows) as [b |] eqn:Eb; [| vm_compute in Eb; discriminate].
+  destruct (find (is_fn NPTAdd_row) thread_rows) as [c |] eqn:Ec; [| vm_compute in Ec; discriminate].
+  apply find_some in Ea, Eb, Ec. exists a, b, c.
+  destruct Ea as [Ia Fa], Eb as [Ib Fb], Ec as [Ic Fc].
+  apply is_fn_true in Fa, Fb, Fc. tauto.
+Qed.
